@@ -101,6 +101,8 @@ def psub(s):
     if s[0] == ":":
         return ":"
     if s[0] == "rng":
+        if len(s) > 3:
+            return "%s:%s:%s" % (pe(s[1]), pe(s[2]), pe(s[3]))
         return "%s:%s" % (pe(s[1]), pe(s[2]))
     return pe(s)
 
@@ -248,8 +250,19 @@ def print_lines(decls):
     return out
 
 
+def _lit(ty, z):
+    if ty == "logical":
+        return ".true." if z else ".false."
+    if ty == "real":
+        return "%d.0" % z
+    return "%d" % z
+
+
 def proc_text(p):
-    """p = dict(name, kind 'sub'|'fun', dummies [(name, type, intent, 'assumed'|None)], locals [decl], body, result)"""
+    """p = dict(name, kind 'sub'|'fun', dummies [(name, type, intent, 'assumed'|None)], locals [decl], body, result)
+    optional: params [(name, expr)] (local PARAMETER constants), inits {local: value} (initialised => static),
+    static {"mech": "list"|"attr"|"bare", "names": [..]} (locals made static by a SAVE statement with a list, by the
+    SAVE attribute, or by a bare SAVE statement)"""
     args = ", ".join(d[0] for d in p["dummies"])
     if p["kind"] == "sub":
         lines = ["  subroutine %s(%s)" % (p["name"], args)]
@@ -257,17 +270,46 @@ def proc_text(p):
         lines = ["  function %s(%s) result(%s)" % (p["name"], args, p["result"])]
     for d in p["dummies"]:
         lines.append("  " + pdecl((d[0], d[1], d[3] or []), ", intent(%s)" % d[2]))
+    for n, e in p.get("params", ()):
+        lines.append("    integer, parameter :: %s = %s" % (n, pe(e)))
+    st = p.get("static") or {"mech": None, "names": []}
+    inits = p.get("inits", {})
     for d in p["locals"]:
-        lines.append("  " + pdecl(d))
+        line = "  " + pdecl(d, ", save" if (st["mech"] == "attr" and d[0] in st["names"]) else "")
+        if d[0] in inits:
+            line += " = " + _lit(d[1], inits[d[0]])
+        lines.append(line)
+    if st["mech"] == "list":
+        lines.append("    save :: " + ", ".join(st["names"]))
+    elif st["mech"] == "bare":
+        lines.append("    save")
     lines += ps(p["body"], "    ")
     lines.append("  end %s %s" % ("subroutine" if p["kind"] == "sub" else "function", p["name"]))
     return lines
 
 
-def program_text(name, stmts, decls, vals, procs=()):
+def static_names(p):
+    st = p.get("static") or {"mech": None, "names": []}
+    if st["mech"] == "bare":
+        return [d[0] for d in p["locals"]]
+    return sorted(set(st["names"]) | set(p.get("inits", {})))
+
+
+def module_decls(mod):
+    """module variables as declarations (for printing their final values from the main program)"""
+    return [(n, "integer", []) for n, _ in (mod or {}).get("vars", ())]
+
+
+def program_text(name, stmts, decls, vals, procs=(), mod=None):
+    """mod = dict(params [(name, int)], vars [(name, initial int)]): module PARAMETERs and module variables"""
     lines = []
     if procs:
-        lines += ["module mm", "  implicit none", "contains"]
+        lines += ["module mm", "  implicit none"]
+        for n, v in (mod or {}).get("params", ()):
+            lines.append("  integer, parameter :: %s = %d" % (n, v))
+        for n, v in (mod or {}).get("vars", ()):
+            lines.append("  integer :: %s = %d" % (n, v))
+        lines.append("contains")
         for p in procs:
             lines += proc_text(p)
         lines += ["end module mm"]
@@ -278,9 +320,37 @@ def program_text(name, stmts, decls, vals, procs=()):
     lines += [pdecl(d) for d in decls]
     lines += init_lines(decls, vals)
     lines += ps(stmts)
-    lines += print_lines(decls)
+    lines += print_lines(decls + (module_decls(mod) if procs else []))
     lines.append("end program %s" % name)
     return "\n".join(lines) + "\n"
+
+
+IDENT = None
+
+
+def mixcase(text, rng):
+    """the same program with the letter case of identifiers and keywords changed at random, occurrence by
+    occurrence (Fortran is case-insensitive); names listed in SAVE statements are changed more often"""
+    import re
+    out = []
+    for line in text.split("\n"):
+        is_save = line.strip().lower().startswith("save")
+
+        def f(m):
+            w = m.group(0)
+            c = rng.random()
+            if is_save and w.lower() != "save":
+                c = c * 0.45 + 0.55
+            if c < 0.6:
+                return w
+            if c < 0.75:
+                return w.upper()
+            if c < 0.9:
+                return w[0].upper() + w[1:]
+            return "".join(ch.upper() if rng.random() < 0.5 else ch for ch in w)
+        # identifiers / keywords; not the letters of .true. / .and. / exponent-free numeric literals
+        out.append(re.sub(r"(?<![\w.])[A-Za-z_]\w*(?!\w*\.)", f, line))
+    return "\n".join(out)
 
 
 # ------------------------------------------------------------------------------ evaluation
@@ -296,10 +366,15 @@ class Machine:
     """Store + evaluator.  bnds: name -> [(lb, ub)..] for arrays.  Every array access is bounds-checked
     (an out-of-bounds access makes the source program invalid: the case is skipped)."""
 
-    def __init__(self, vals, bnds, procs=None, fuel=200000):
+    def __init__(self, vals, bnds, procs=None, fuel=200000, mod=None, root=None):
         self.vals = dict(vals)
         self.bnds = dict(bnds)
         self.procs = {p["name"]: p for p in (procs or ())}
+        self.root = root or self
+        self.mod = mod or {}
+        if root is None:
+            self.statics = {}                                   # procedure -> {cell: value}
+            self.modvals = {n: v for n, v in self.mod.get("vars", ())}
         self.fuel = fuel
         self.maxabs = 0
         self.cbmap = None      # canonical text -> source statements, to give code blocks their meaning
@@ -440,9 +515,13 @@ class Machine:
                 sh.append(max(0, ub - lb + 1))
             elif s[0] == "rng":
                 lo, hi = self.ev(s[1]), self.ev(s[2])
-                if hi >= lo and (lo < lb or hi > ub):
+                st = self.ev(s[3]) if len(s) > 3 else 1
+                if st == 0:
+                    raise Invalid("zero stride")
+                n = max(0, _quot(hi - lo + st, st))
+                if n > 0 and (min(lo, lo + (n - 1) * st) < lb or max(lo, lo + (n - 1) * st) > ub):
                     raise Invalid("section bounds")
-                sh.append(max(0, hi - lo + 1))
+                sh.append(n)
         return sh
 
     def shape(self, e):
@@ -480,7 +559,7 @@ class Machine:
                 ix.append(lb + pos[r])
                 r += 1
             elif s[0] == "rng":
-                ix.append(self.ev(s[1]) + pos[r])
+                ix.append(self.ev(s[1]) + pos[r] * (self.ev(s[3]) if len(s) > 3 else 1))
                 r += 1
             else:
                 ix.append(self.ev(s))
@@ -668,8 +747,19 @@ class Machine:
                 pos += 1
             else:
                 bind[an] = e
-        sub = Machine({}, {}, self.procs.values(), self.fuel)
+        sub = Machine({}, {}, self.procs.values(), self.fuel, mod=self.mod, root=self.root)
         sub.maxabs = self.maxabs
+        root = self.root
+        for n, v in self.mod.get("params", ()):
+            sub.vals[(n, ())] = v
+        for n, v in root.modvals.items():
+            sub.vals[(n, ())] = v
+        for n, e in p.get("params", ()):
+            sub.vals[(n, ())] = sub.ev(e)
+        snames = static_names(p)
+        if name not in root.statics:
+            root.statics[name] = {(n, ()): v for n, v in p.get("inits", {}).items()}
+        sub.vals.update(root.statics[name])
         back = []
         for d in dums:
             e = bind[d[0]]
@@ -692,6 +782,9 @@ class Machine:
             if d[2]:
                 sub.bnds[d[0]] = list(d[2])
         sub.run(p["body"])
+        root.statics[name] = {c: v for c, v in sub.vals.items() if c[0] in snames}
+        for n in list(root.modvals):
+            root.modvals[n] = sub.vals.get((n, ()), 0)
         self.fuel = sub.fuel
         self.maxabs = max(self.maxabs, sub.maxabs)
         for b in back:
@@ -712,9 +805,10 @@ def positions(sh):
     return itertools.product(*[range(n) for n in sh])
 
 
-def evaluate(stmts, vals, bnds, procs=None, cbmap=None):
-    """-> ("ok", vals, maxabs) | ("invalid", why) | ("notverbatim", text) | ("fuel",)"""
-    m = Machine(vals, bnds, procs)
+def evaluate(stmts, vals, bnds, procs=None, cbmap=None, mod=None):
+    """-> ("ok", vals, maxabs) | ("invalid", why) | ("notverbatim", text) | ("fuel",)
+    (the final values of module variables are returned among vals)"""
+    m = Machine(vals, bnds, procs, mod=mod)
     m.cbmap = cbmap
     try:
         m.run(stmts)
@@ -724,6 +818,8 @@ def evaluate(stmts, vals, bnds, procs=None, cbmap=None):
         return ("notverbatim", str(e))
     except Fuel:
         return ("fuel",)
+    for n, v in m.modvals.items():
+        m.vals[(n, ())] = v
     return ("ok", m.vals, m.maxabs)
 
 
@@ -769,8 +865,8 @@ def walk_expr(e):
     elif k == "sec":
         for s in e[2]:
             if s[0] == "rng":
-                yield from walk_expr(s[1])
-                yield from walk_expr(s[2])
+                for x in s[1:]:
+                    yield from walk_expr(x)
             elif s[0] != ":":
                 yield from walk_expr(s)
     elif k == "red":
